@@ -273,6 +273,20 @@ def _tables_in(node):
     return {n.id for n in ast.walk(node) if isinstance(n, ast.Name) and n.id in REPL_TABLES}
 
 
+def _fmt_dicts_anywhere(m, f):
+    """Dict literals with integer keys used by f: in its body, or module-level tables it names."""
+    out = [x for x in own_walk(f.node) if isinstance(x, ast.Dict) and x.keys and all(isinstance(k, ast.Constant) and isinstance(k.value, int) for k in x.keys)]
+    for x in own_walk(f.node):
+        nm = x.id if isinstance(x, ast.Name) else x.attr if isinstance(x, ast.Attribute) else None
+        if nm:
+            for mod in m.mods:
+                g = m.modglobals.get(mod, {}).get(nm)
+                if isinstance(g, ast.Dict) and g.keys and all(isinstance(k, ast.Constant) and isinstance(k.value, int) for k in g.keys) \
+                        and all(isinstance(v, ast.Constant) and isinstance(v.value, str) and len(v.value) <= 2 for v in g.values):
+                    out.append(g)
+    return out
+
+
 def _fmt_dicts(f):
     """Dict literals {int: '<fmt>'} in a function, each with the truth of an enclosing big-endian test if any."""
     out = []
@@ -297,47 +311,53 @@ def rule_H2(ctx):
                f"differs from float's {ref}", loc='bitstring/__init__.py')
     else:
         r.ok('floatle lengths')
-    sites = []
+    # what format string reaches struct for each (length, byte order): partial evaluation of the encoder and the two decoders
+    from .peval import struct_formats, Unsupported, is_const
     enc = m.funcs.get('bitstore_helpers:float2bitstore')
     if enc is None:
         raise AnalysisError('anchor vanished: bitstore_helpers.float2bitstore')
-    # encoder: IfExp with big-endian body
-    found = False
-    for n in own_walk(enc.node):
-        if isinstance(n, ast.IfExp) and 'big_endian' in ast.unparse(n.test):
-            for part, pref in ((n.body, '>'), (n.orelse, '<')):
-                for d in [x for x in ast.walk(part) if isinstance(x, ast.Dict)]:
-                    sites.append((enc, d, pref))
-                    found = True
-    if not found:
-        raise AnalysisError('float2bitstore: big_endian format selection not recognised (needs a human)')
+    lp = [p for p in enc.params() if 'length' in p]
+    bp = [p for p in enc.params() if 'endian' in p]
+    if len(lp) != 1 or len(bp) != 1:
+        raise AnalysisError('float2bitstore: length / byte-order parameters not recognised (needs a human)')
+    jobs = []
+    for L in ref:
+        for be in (True, False):
+            jobs.append((enc, {lp[0]: L, bp[0]: be}, L, '>' if be else '<', f'float2bitstore(length={L}, big_endian={be})'))
     for fk, pref in (('bits:Bits._getfloatbe', '>'), ('bits:Bits._getfloatle', '<')):
         f = m.funcs.get(fk)
         if f is None:
             raise AnalysisError(f'anchor vanished: {fk}')
-        ds = _fmt_dicts(f)
-        if not ds:
-            raise AnalysisError(f'{fk}: no format dict found')
-        for d in ds:
-            sites.append((f, d, pref))
-    for f, d, pref in sites:
-        keys = tuple(k.value for k in d.keys)
-        if set(keys) != set(ref):
-            r.fail(f.key, d, f"format table lengths {sorted(keys)} differ from registry allowed_lengths {sorted(ref)}",
-                   loc=f.loc(d))
-        else:
-            r.ok(ast.unparse(d))
-        for k, v in zip(d.keys, d.values):
-            fmt = v.value
+        for L in ref:
+            jobs.append((f, {'len(self)': L}, L, pref, f'{f.name} on {L} bits'))
+    for f, env, L, pref, what in jobs:
+        try:
+            fmts, _rets = struct_formats(m, f, env)
+        except Unsupported as e:
+            raise AnalysisError(f'{f.key}: {e}')
+        vals = [v for v, _n, _k in fmts]
+        if not vals:
+            raise AnalysisError(f'{f.key}: no struct.pack/unpack reached for {what} (needs a human)')
+        for v, node, fkey in fmts:
+            if not (is_const(v) and isinstance(v, str)):
+                raise AnalysisError(f'{f.key}: the struct format for {what} is not a constant of the known tables ({v}) (needs a human)')
             try:
-                size = struct.calcsize(fmt) * 8
+                size = struct.calcsize(v) * 8
             except struct.error:
                 size = None
-            if size != k.value or not fmt.startswith(pref) or fmt[1:] not in ('e', 'f', 'd'):
-                r.fail(f.key, f"{k.value}: '{fmt}'",
-                       f"expected a '{pref}' float format of {k.value} bits (struct.calcsize gives {size})", loc=f.loc(v))
+            if size != L or not v.startswith(pref) or v[1:] not in ('e', 'f', 'd'):
+                r.fail(f.key, f"{L}: '{v}'", f"{what} uses struct format '{v}': expected a '{pref}' float format of {L} bits (struct.calcsize gives {size})",
+                       loc=m.funcs[fkey].loc(node) if fkey in m.funcs else f.loc())
             else:
-                r.ok(f"{f.key} {k.value}:{fmt}", {'instance': f"{f.key} {k.value}: '{fmt}'", 'oracle': f'calcsize={size // 8}B, prefix {pref}'})
+                r.ok(f"{f.key} {L}:{v}", {'instance': what, 'format': v, 'oracle': f'calcsize={size // 8}B, prefix {pref}'})
+    # a length outside the table: the tables the codecs index must have exactly the registry's lengths as keys
+    for f in [enc] + [m.funcs[k] for k in ('bits:Bits._getfloatbe', 'bits:Bits._getfloatle')]:
+        for d in _fmt_dicts_anywhere(m, f):
+            keys = tuple(k.value for k in d.keys if isinstance(k, ast.Constant))
+            if set(keys) != set(ref):
+                r.fail(f.key, d, f"format table lengths {sorted(keys)} differ from registry allowed_lengths {sorted(ref)}", loc=f.loc(d) if hasattr(d, 'lineno') else f.loc())
+            else:
+                r.ok(ast.unparse(d))
     sf = m.funcs.get('bits:Bits._setfloat')
     if sf is None:
         raise AnalysisError('anchor vanished: Bits._setfloat')
